@@ -9,9 +9,9 @@
     (posof <hex text> <k>)                   -> `<line-1> <column>`             Text.SrcLine.posOf
     (synmsg <line> <col> <ul> <hex source_line> <hex detail>) -> `<hex message>` VTLSyntaxError message
     (checks)                                 -> `historyFree=<b> errDiscipline=<b> guarded=<b>` on the Gen step list
-    (parseseq <f1,f2,..> <hex t1> <hex t2> ...) -> demo interpretation, state threaded through the texts:
+    (parseseq <f1,f2,..> <hex t1> <hex t2> ...) -> demo interpretation, from the state of a fresh process, state threaded through the texts:
                                                  observables of each parse, fields joined by ` | `, parses by ` ;; `
-    (fresh <f1,f2,..> <hex t>)               -> the same for a single parse from the initial state
+    (fresh <f1,f2,..> <hex t>)               -> the same for a single parse from the state of a fresh process
 -/
 import VtlModel.Text.SrcLine
 import VtlModel.Text.ParserState
@@ -91,11 +91,11 @@ def request (ws : List (List Char)) : String :=
     s!"historyFree={historyFree listener doParseSteps (stateFields ++ [retSlot])} errDiscipline={errDiscipline listener false false [] doParseSteps} guarded={listener.guarded}"
   | "parseseq" :: _, _ :: fs :: texts =>
     match unhexAll texts with
-    | some ts => showParses (parseSeq demo listener doParseSteps ((splitOnC ',' fs).map String.ofList) initState (ts.map String.ofList))
+    | some ts => showParses (parseSeq demo listener doParseSteps ((splitOnC ',' fs).map String.ofList) (freshState listener) (ts.map String.ofList))
     | none => "(bad-request)"
   | ["fresh", _, _], [_, fs, t] =>
     match unhex t with
-    | some tx => showParses (parseSeq demo listener doParseSteps ((splitOnC ',' fs).map String.ofList) initState [String.ofList tx])
+    | some tx => showParses (parseSeq demo listener doParseSteps ((splitOnC ',' fs).map String.ofList) (freshState listener) [String.ofList tx])
     | none => "(bad-request)"
   | _, _ => "(bad-request)"
 
